@@ -5,37 +5,33 @@ Termination is by construction: the models of `Model/AigerToken.lean` / `Model/A
 total functions (structural recursion; the loops that consume input carry fuel, and running out
 of fuel is the explicit outcome `panic "fuel"`, excluded below).
 
-Proved here, for every input `b` with `b.length + 3 ≤ usize::MAX`, failing or healthy source, and
-from every state satisfying the parser invariant `Inv b f` (which holds initially: `inv_init`,
-and is re-established by every call that returns):
-* `aiger_new_no_panic` — `Parser::new` (ASCII and binary header) for literal types of at most
-  64 bits: the two `limit -= count` cannot underflow, `max_var_index * 2 + 1` cannot overflow;
-* `aiger_next_no_panic` — every text-line section reader of both formats (`next_input`,
-  `next_latch` ASCII and binary, `next_output`, …, `next_justice_property_size` with its
-  `usize::MAX - total` / `total += count`, ASCII `next_and_gate`) incl. the draining loops of the
-  transition functions (fuel never runs out);
-* `aag_parse_no_panic` — whole-file `ascii::Parser::parse` from the initial state, incl. the index
-  arithmetic of the justice distribution loop (`justice_properties[i]`, `sizes[i]`);
-* `aiger_symbol_no_panic`, `aiger_comment_no_panic` — `next_symbol` (the repaired F3: `count - 1`
-  under `count > 0` of the same count), `remaining_line_content` (the repaired F5: the column
-  subtraction cannot underflow) and `comment()` with `remaining_file_content` (F6) incl. its
-  multi-line jump `line += skip_lines`.
-The same Hoare triples give, as by-products, the C08 range statement and the C04 statement for
-these entry points (`Flussab.C08.aiger_error_in_range`, `Flussab.C04.aiger_fault_io`).
+Proved here, for every input `b` with `b.length + 3 ≤ usize::MAX` (a longer input cannot exist in
+memory; the bound is what keeps `line_at_offset` from overflowing), failing or healthy source,
+all literal types of at most 64 bits:
+* `aag_parse_no_panic`, `aig_parse_no_panic` — whole-file `parse()` of both formats from the
+  initial state never returns a panic;
+* for the streaming API, from every state satisfying the parser invariant (`Inv b f` for text
+  lines — it holds initially, `aiger_inv_init`, and every returning call re-establishes it; `MInv b f`
+  inside the binary and-gate block — implied by `Inv`, `aig_block_inv_of_inv`):
+  `aiger_new_no_panic` (`Parser::new`: the two `limit -= count`, `max_var_index * 2 + 1`),
+  `aiger_next_no_panic` (every text-line `next_*` of both formats with its draining loop;
+  `usize::MAX - total`, `total += count`), `aig_gate_no_panic` (binary `next_and_gate`:
+  `binary_uint`, `code - delta`, the error at the mark), `aiger_symbol_no_panic` (F3, F5),
+  `aiger_comment_no_panic` (F6, the multi-line jump), `aig_after_block` (after the block the text
+  invariant holds again, over the input whose block bytes are masked, so the symbol and comment
+  theorems apply), `aig_varint_fuel`.
+The and-gate block: a consumed byte may be `0x0A`, so the no-newline-since-`line_start` clause of
+`Inv` cannot hold over `b` itself; it holds over `mask b s p` (`b` with the block bytes `[s, p)`
+replaced by zeros) — the block is the continuation of one line, as in DESIGN §4 C08.
 
-Not proved (visible as `…_full : Prop`):
-* `aig_gates_no_panic_full` — the binary and-gate block (`binary_uint`, `delta_code`): inside the
-  block a consumed byte may be `0x0A`, which the line invariant used here excludes; needs the
-  "block is the continuation of one line" invariant of DESIGN §4 C08.  (What *is* proved about
-  the varint reader: `Flussab.C06.aig_varint_exact`, `Flussab.C03.aig_varint_roundtrip`; and
-  its fuel never runs out: `aig_varint_fuel`.)
-* `aig_parse_no_panic_full` — whole-file `binary::Parser::parse`: blocked by the and-gate block
-  only (everything else it calls is covered).
-* the allocation bound `P_alloc_bounded` of DESIGN §4 C05 is checked on the implementation by the
-  `aiger` engine (counting allocator, `peak ≤ 64·len + 1 MiB`), not modelled.
+Not modelled: the allocation bound `P_alloc_bounded` of DESIGN §4 C05 is checked on the
+implementation by the `aiger` engine (counting allocator, `peak ≤ 64·len + 1 MiB`).
+The C08 / C04 statements that the same Hoare triples give are in `Props/C08Aiger.lean` and
+`Props/C04Aiger.lean`.
 -/
 import Flussab.Proof.AigerSafe
 import Flussab.Proof.AigerJustice
+import Flussab.Proof.AigerBinSafe
 import Flussab.Proof.AigerVarint
 
 namespace Flussab.C05
@@ -136,64 +132,43 @@ theorem aiger_no_panic {α : Type} {m : PM α} (c : Covered m) (b : VBytes) (f :
   obtain ⟨Q, w⟩ := c.wp b f lr h
   exact noPanic_of_wp w
 
-end Flussab.C05
+/-! ### the binary and-gate block and binary `parse()` -/
 
-namespace Flussab.C08
-open Flussab Flussab.Aiger PM Lines
+theorem noPanic_of_wpM {α : Type} {b : VBytes} {f : Bool} {m : PM α} {lr : LR} {Q : α → LR → Prop}
+    (h : Wp (ErrM b f) m lr Q) : NoPanic (m.run lr) := by
+  intro site lr' hr
+  unfold Wp at h
+  rw [hr] at h
+  obtain ⟨s, p, _, _, he⟩ := h
+  exact he.2
 
-/-- **C08 (range)** for the covered entry points: a syntax error designates a line of the input
-and a column on it (`1 ≤ l ≤ nlines + 1`, `1 ≤ c ≤ lineLen l + 1`). -/
-theorem aiger_error_in_range {α : Type} {m : PM α} (c : C05.Covered m) (b : VBytes) (f : Bool)
-    (lr lr' : LR) (h : Inv b f lr) (l col : Nat) (hr : m.run lr = (.error (.syn l col), lr')) :
-    InRange b l col := by
-  obtain ⟨Q, w⟩ := c.wp b f lr h
-  exact ((Wp.of_run w).2 _ _ hr).2.1
+/-- The text invariant implies the block invariant. -/
+theorem aig_block_inv_of_inv (b : VBytes) (f : Bool) (lr : LR) (h : Inv b f lr) : MInv b f lr :=
+  MInv.of_inv h
 
-end Flussab.C08
+/-- After (or anywhere in) the block the text invariant holds over the masked input; the
+theorems about text lines, symbols and the comment are generic in the input and apply to it. -/
+theorem aig_after_block (b : VBytes) (f : Bool) (lr : LR) (h : MInv b f lr) :
+    Inv (mask b lr.lineStart lr.v.pos) f lr := h.2.2
 
-namespace Flussab.C04
-open Flussab Flussab.Aiger PM Lines
+/-- **`binary::ParseAndGates::next_and_gate` never panics** (two `delta_code`s: the varint loops,
+`code - delta`, the column of the error at the mark) and keeps the block invariant, whatever the
+bytes are. -/
+theorem aig_gate_no_panic (b : VBytes) (f : Bool) (s : St) (lr : LR) (h : MInv b f lr) (hs : SInv s) :
+    NoPanic ((nextAndGateBin s).run lr) ∧
+    NoPanic ((whileSome nextAndGateBin (s.left + 1) s []).run lr) ∧
+    ∀ r lr', (nextAndGateBin s).run lr = (.ok r, lr') → MInv b f lr' ∧ SInv r.2 := by
+  have w := nextAndGateBin_ok s h hs
+  refine ⟨noPanic_of_wpM w, noPanic_of_wpM (gatesLoop_ok _ s [] lr h hs (by omega)), ?_⟩
+  intro r lr' hr
+  have := (Wp.of_run w).1 r lr' hr
+  exact ⟨this.1, this.2.1⟩
 
-/-- **C04** for the covered entry points: an I/O error is only ever reported for a failing source;
-and when the source is a failing one, a syntax error is raised before the reader has hit the end
-of the delivered data (so it is the fault-free run's own error, found without looking at or beyond
-the offset where the source failed). -/
-theorem aiger_fault_io {α : Type} {m : PM α} (c : C05.Covered m) (b : VBytes) (f : Bool)
-    (lr lr' : LR) (h : Inv b f lr) (e : PErr) (hr : m.run lr = (.error e, lr')) :
-    (e = .io → f = true) ∧ (∀ l col, e = .syn l col → f = true → lr'.v.sawEnd = false) := by
-  obtain ⟨Q, w⟩ := c.wp b f lr h
-  have he := (Wp.of_run w).2 _ _ hr
-  refine ⟨?_, ?_⟩
-  · intro h1; subst h1; exact he.2
-  · intro l col h1; subst h1; exact he.2.2
-
-/-- A failing source never lets `comment()` return normally (the repaired F6), nor any other
-covered call end the file cleanly: the clean end is only accepted by `eof`, which tests the parked
-error. -/
-theorem aiger_eof_not_on_fault (b : VBytes) (lr lr' : LR) (h : Inv b true lr) (u : Unit) :
-    eof.run lr ≠ (.ok (some u), lr') := by
-  intro hr
-  have := (Wp.of_run (E := Err b true) (eof_ok h)).1 _ _ hr
-  have := (this.2.2.2 rfl).1
-  cases this
-
-end Flussab.C04
-
-namespace Flussab.C05
-open Flussab Flussab.Aiger PM Lines
-
-/-! ### not yet proved -/
-
-/-- The binary and-gate block: `next_and_gate` of `binary.rs` (two `delta_code`s) never panics.
-Needs an invariant in which the block is the continuation of one line (a consumed byte may be
-`0x0A`); the line invariant `Inv` used above is too strong there. -/
-def aig_gates_no_panic_full : Prop :=
-  ∀ (s : St) (lr : LR), lr.lineStart ≤ lr.v.pos → NoPanic ((nextAndGateBin s).run lr)
-
-/-- Whole-file `binary::Parser::parse` never panics.  Missing: the and-gate block (see above). -/
-def aig_parse_no_panic_full : Prop :=
-  ∀ (b : VBytes) (f : Bool) (l : LitTy), l.bits ≤ 64 → b.length + 3 ≤ usizeMax →
-    NoPanic ((parseAig l).run (LR.init b f))
+/-- **Whole-file `binary::Parser::parse` never panics**, for every input shorter than
+`usize::MAX - 3`, healthy or failing source, and all five literal types. -/
+theorem aig_parse_no_panic (b : VBytes) (f : Bool) (l : LitTy) (hl : l.bits ≤ 64)
+    (hb : b.length + 3 ≤ usizeMax) : NoPanic ((parseAig l).run (LR.init b f)) :=
+  noPanic_of_wpM (parseAig_ok l hl (aiger_inv_init b f hb))
 
 /-- **Whole-file `ascii::Parser::parse` never panics**, for every input shorter than
 `usize::MAX - 3`, healthy or failing source, and all five literal types: header arithmetic,
@@ -213,6 +188,10 @@ def exAag : VBytes := [97,97,103,32,51,32,49,32,49,32,49,32,49,10,50,10,52,32,54
 def isOk {α : Type} (r : Except PErr α × LR) : Bool :=
   match r.1 with | .ok _ => true | .error _ => false
 
+/-- The error of a run, if it ended in one. -/
+def errOf {α : Type} (r : Except PErr α × LR) : Option PErr :=
+  match r.1 with | .ok _ => none | .error e => some e
+
 /-- The hypotheses are satisfiable and the conclusions speak about real runs: the initial state of
 a small file satisfies the invariant, the header is accepted, and the invariant holds after it. -/
 example : ∃ p lr', (Parser.new false ⟨8⟩).run (LR.init exAag false) = (.ok p, lr') ∧
@@ -225,6 +204,18 @@ example : ∃ p lr', (Parser.new false ⟨8⟩).run (LR.init exAag false) = (.ok
 
 /-- An error outcome exists too (so "not a panic" is not vacuous): a truncated header. -/
 example : isOk ((Parser.new false ⟨8⟩).run (LR.init [97, 97, 103, 32, 51] false)) = false := by
+  decide +kernel
+
+/-- `"aig 6 5 0 0 1\n" ++ [0x0A, 0x02] ++ "i0 x\n"`: the first delta of the only gate is the byte
+`0x0A` — a newline byte inside the and-gate block, followed by a symbol line on the same "line". -/
+def exAigLf : VBytes := [97,105,103,32,54,32,53,32,48,32,48,32,49,10, 10,2, 105,48,32,120,10]
+
+/-- The binary theorems are about real runs in which a consumed block byte is a newline byte: the
+file is accepted, and a variant with a bad symbol index is rejected with an error (not a panic)
+on line 2 — the line that starts where the block starts. -/
+example : isOk ((parseAig ⟨64⟩).run (LR.init exAigLf false)) = true ∧
+    errOf ((parseAig ⟨64⟩).run (LR.init [97,105,103,32,54,32,53,32,48,32,48,32,49,10, 10,2, 105,57,32,120,10] false))
+      = some (.syn 2 4) := by
   decide +kernel
 
 end Flussab.C05
